@@ -217,6 +217,8 @@ def _vars(proto):
         return [CV(name='a', lower_bound=-3, upper_bound=4), CV(name='b', lower_bound=0.5, upper_bound=2)]
     if proto == 'cont1':
         return [CV(name='a', lower_bound=-3, upper_bound=4)]
+    if proto == 'cm1':      # a multi-variable holding exactly one component (the same 1-D problem as cont1)
+        return [CM(name='x', lower_bounds=[-3], upper_bounds=[4])]
     if proto == 'cont5':
         return [CM(name='x', lower_bounds=[-4, 0, -5, 2, -1], upper_bounds=[4, 10, 0, 3, 1])]
     if proto == 'mo2':
@@ -239,7 +241,7 @@ def _vars(proto):
     raise KeyError(proto)
 
 
-CONTINUOUS = ['cont3z', 'cont3s', 'scales4', 'far2', 'cont2s', 'cont1', 'cont5', 'mo2']
+CONTINUOUS = ['cont3z', 'cont3s', 'scales4', 'far2', 'cont2s', 'cont1', 'cm1', 'cont5', 'mo2']
 INTEGER = ['disc2', 'dm2', 'dm3', 'bin4', 'mixed3', 'perm4', 'perm4c']
 ALL_PROTOS = CONTINUOUS + INTEGER
 
